@@ -208,6 +208,59 @@ Fixpoint jobs_spec (all : list jop) (maxw : nat) (prev : jobs_obs) (acc : list n
 Definition jobs_spec_ok (c : jcase) : bool :=
   (1 <=? jc_max c)%nat && jobs_spec (jc_ops c) (jc_max c) (JObs [] [] 0 [] []) [] (jc_ops c).
 
+(** * concurrent submissions: [pre] jobs submitted one after the other, then a burst of Submit
+      calls from as many goroutines at once (no job returns meanwhile).  The order in which
+      the manager's mutex admitted the burst is read off the state afterwards: the jobs that
+      started are a prefix of the acceptance order, the queue is the rest in order; a
+      duplicate is a no-op wherever it falls after its twin.  [jb_subs]: (id, name, accepted)
+      in that order, duplicates last; then the snapshot at quiescence and the ids that had
+      started once everything was drained. *)
+
+Record jbsub := JBSub { jb_id : nat; jb_name : str; jb_acc : bool }.
+Record jbcase := JBCase { jb_max : nat; jb_subs : list jbsub; jb_obs : jobs_obs; jb_final_started : list nat }.
+
+Fixpoint jb_replay (maxw : nat) (s : jm) (l : list jbsub) : option jm :=
+  match l with
+  | [] => Some s
+  | x :: r =>
+      match jstep maxw s (Submit (Job (jb_id x) (jb_name x))) with
+      | Some s' =>
+          (* the model must agree on whether this submission was a duplicate *)
+          let dup := negb (is_empty_name (jb_name x)) && has_name (jb_name x) (names s) in
+          if Bool.eqb dup (negb (jb_acc x))
+          then jb_replay maxw (settle (S (length (queue s') + idle s')) maxw s') r
+          else None
+      | None => None
+      end
+  end.
+
+Definition jb_model_ok (c : jbcase) : bool :=
+  match jb_replay (jb_max c) jinit (jb_subs c) with
+  | Some s => jobs_eq s (jb_obs c) &&
+              nset_eqb (jb_final_started c) (map jb_id (filter jb_acc (jb_subs c)))
+  | None => false
+  end.
+
+Definition jb_spec_ok (c : jbcase) : bool :=
+  let ob := jb_obs c in
+  let acc := filter jb_acc (jb_subs c) in
+  let acc_names := nonempty_names (map jb_name acc) in
+  let all_names := nonempty_names (map jb_name (jb_subs c)) in
+  (1 <=? jb_max c)%nat &&
+  (* at most one job per name, and every name that was submitted is held by exactly one job *)
+  nodup_strs acc_names && forallb (fun n => has_name n acc_names) all_names &&
+  set_eqb (jo_names ob) acc_names &&
+  (* unnamed jobs are never dropped *)
+  forallb (fun x => jb_acc x || negb (is_empty_name (jb_name x))) (jb_subs c) &&
+  (* every accepted job is running or queued, once; workers: one per running job, as many as
+     the limit allows *)
+  nodup_nats (jo_running ob) && forallb (fun i => nmem i (map jb_id acc)) (jo_running ob) &&
+  (length (jo_running ob) + length (jo_queue ob) =? length acc)%nat &&
+  (jo_active ob =? length (jo_running ob))%nat &&
+  (length (jo_running ob) =? Nat.min (jb_max c) (length acc))%nat &&
+  (* in the end every accepted job ran exactly once, and nothing else *)
+  nodup_nats (jb_final_started c) && nset_eqb (jb_final_started c) (map jb_id acc).
+
 (** * CA selection *)
 
 Record cacase := CACase { ca_ca : str; ca_test : str; ca_has_scheme : bool;
@@ -329,7 +382,7 @@ Definition e2e_spec_ok (c : ecase) : bool :=
 
 (** * wire *)
 
-Inductive tcase := TRetry (c : rcase) | TJobs (c : jcase) | TCA (c : cacase) | TE2E (c : ecase).
+Inductive tcase := TRetry (c : rcase) | TJobs (c : jcase) | TCA (c : cacase) | TE2E (c : ecase) | TJBurst (c : jbcase).
 
 Definition get_zlist : dec (list Z) := get_list get_z.
 Definition get_oatt : dec oatt := (n <- get_z ;; s <- get_z ;; e <- get_z ;; o <- get_z ;; ret (OAtt n s e o))%Z.
@@ -350,12 +403,16 @@ Definition get_eatt : dec eatt := (n <- get_z ;; l <- get_list get_eord ;; r <- 
 Definition get_ecase : dec ecase :=
   (m <- get_z ;; a <- get_str ;; t <- get_str ;; pu <- get_str ;; tu <- get_str ;; l <- get_list get_eatt ;;
    f <- get_z ;; st <- get_z ;; sv <- get_z ;; ret (ECase (m =? 1) a t pu tu l f st sv))%Z.
+Definition get_jbsub : dec jbsub := (i <- get_nat ;; n <- get_str ;; a <- get_bool ;; ret (JBSub i n a))%Z.
+Definition get_jbcase : dec jbcase :=
+  (m <- get_nat ;; l <- get_list get_jbsub ;; o <- get_jobs_obs ;; f <- get_list get_nat ;; ret (JBCase m l o f))%Z.
 Definition get_case : dec tcase :=
   (k <- get_z ;;
    if (k =? 0) || (k =? 1) then (c <- get_rcase ;; ret (TRetry c))
    else if k =? 2 then (c <- get_jcase ;; ret (TJobs c))
    else if k =? 3 then (c <- get_cacase ;; ret (TCA c))
-   else (c <- get_ecase ;; ret (TE2E c)))%Z.
+   else if k =? 4 then (c <- get_ecase ;; ret (TE2E c))
+   else (c <- get_jbcase ;; ret (TJBurst c)))%Z.
 
 Definition check_line (l : list Z) : Z :=
   match decode get_case l with
@@ -363,6 +420,7 @@ Definition check_line (l : list Z) : Z :=
   | Some (TJobs c) => code (jobs_model_ok c) (jobs_spec_ok c)
   | Some (TCA c) => code (ca_model_ok c) (ca_spec_ok c)
   | Some (TE2E c) => code (e2e_model_ok c) (e2e_spec_ok c)
+  | Some (TJBurst c) => code (jb_model_ok c) (jb_spec_ok c)
   | None => code_decode_error
   end.
 
@@ -377,5 +435,6 @@ Definition explain_line (l : list Z) : list Z :=
   | Some (TJobs c) => [if jobs_model_ok c then 1 else 0]
   | Some (TCA c) => [if ca_model_ok c then 1 else 0]
   | Some (TE2E c) => map (fun a => if eatt_model_ok c a then 1 else 0) (e_atts c)
+  | Some (TJBurst c) => [if jb_model_ok c then 1 else 0]
   | None => []
   end.
